@@ -150,8 +150,16 @@ _SAN = re.compile(r"(ERROR: AddressSanitizer: ([\w-]+)|ERROR: LeakSanitizer: (de
                   r"runtime error: ([^\n]+)|WARNING: ThreadSanitizer: ([\w -]+?) \()")
 
 
-def sanitizer_reports(stderr):
-    """Extract sanitizer findings as (kind, where) signatures from stderr."""
+# Deliberate first-row indexing of 2-D arrays: the access stays inside the enclosing array object
+# (DESIGN.md 8.3).  (source file, function, type fragment)
+BOUNDS_ALLOW = [("teletext.c", "vbi_format_vt_page", "uint8_t[40]"),
+                ("packet.c", "parse_mot", "ttx_pop_link"),
+                ("packet.c", "parse_mot", "uint8_t[8]"),
+                ("packet.c", "parse_mot", "unsigned char[8]")]
+
+
+def sanitizer_reports(stderr, allow=BOUNDS_ALLOW):
+    """Extract sanitizer findings as (kind, function, file:line) signatures from stderr."""
     out = []
     lines = stderr.split("\n")
     for i, ln in enumerate(lines):
@@ -181,5 +189,26 @@ def sanitizer_reports(stderr):
                 if not where:
                     where = os.path.basename(m2.group(2)) + ":" + m2.group(3)
                 break
+        if kind.startswith("ubsan:index") and any(a[0] in where and a[1] == fn and a[2] in ln for a in allow):
+            continue
         out.append((kind, fn or "?", where))
     return out
+
+
+def report_sanitizers(ctx, stderr, replay=None, in_scope=True, limit=5):
+    """Sanitizer reports are violations for the properties with a memory-safety clause
+    (C01 C05 C07 C09 C10 C11 C19 C20); elsewhere they are only noted (they belong to C01)."""
+    n = 0
+    for (kind, fn, where) in sanitizer_reports(stderr):
+        key = "%s:%s" % (kind, fn)
+        if in_scope:
+            i = stderr.find(where) if where else -1
+            ctx.violate("sanitizer", key, stderr[max(0, i - 200):i + 2500] if i >= 0 else stderr[-2500:], replay)
+        else:
+            note = "sanitizer report outside this property's statement (see C01): %s at %s" % (key, where)
+            if note not in ctx.notes:
+                ctx.notes.append(note)
+        n += 1
+        if n >= limit:
+            break
+    return n
